@@ -3,7 +3,7 @@
 //! Events per case: reset, req, then per run (main / twin / echo): head, poll*, body.
 
 use crate::common::*;
-use crate::entity::{BoxError, ScriptedEntity};
+use crate::entity::{BoxError, ChunkData, ScriptedEntity, SegData};
 use crate::lex;
 use bytes::{Buf, Bytes};
 use http::header::{HeaderName, HeaderValue};
@@ -212,7 +212,16 @@ struct RunSpec<'a> {
 /// Executes one request against a fresh scripted entity and emits head / poll* / body events.
 /// Returns the response headers (for echo construction).
 fn run_one(out: &mut Out, case: &Value, rs: &RunSpec) -> Option<http::HeaderMap> {
-    let ent = ScriptedEntity::from_case(&case["ent"], case.get("scripts"), case.get("dscript"));
+    // `seg`: the entity hands out multi-segment `Buf`s instead of contiguous `Bytes`
+    if case.get("seg").and_then(|s| s.as_bool()).unwrap_or(false) {
+        run_one_d::<SegData>(out, case, rs)
+    } else {
+        run_one_d::<Bytes>(out, case, rs)
+    }
+}
+
+fn run_one_d<D: ChunkData>(out: &mut Out, case: &Value, rs: &RunSpec) -> Option<http::HeaderMap> {
+    let ent = ScriptedEntity::<D>::from_case(&case["ent"], case.get("scripts"), case.get("dscript"));
     let log = ent.log.clone();
     let ent_hdrs = ent.hdrs.clone();
     let mut req = Request::builder().method(rs.method.clone()).uri("/");
@@ -410,6 +419,18 @@ pub fn run(cases_path: &str, out_path: &str) {
     let cases = read_cases(cases_path);
     let mut out = Out::create(out_path);
     for case in &cases {
+        // clock placement: some cases are run right before / right after a second boundary
+        if let Some(ps) = case.get("pre_sleep") {
+            if let Some(f) = ps.get("to_frac").and_then(|f| f.as_f64()) {
+                let now = SystemTime::now().duration_since(SystemTime::UNIX_EPOCH).unwrap();
+                let frac = now.subsec_nanos() as f64 / 1e9;
+                let wait = if frac <= f { f - frac } else { 1.0 - frac + f };
+                std::thread::sleep(std::time::Duration::from_secs_f64(wait));
+            }
+            if let Some(ms) = ps.get("ms").and_then(|m| m.as_u64()) {
+                std::thread::sleep(std::time::Duration::from_millis(ms));
+            }
+        }
         out.emit(json!({"ev": "reset", "case": case["id"]}));
         if case.get("conv").is_some() {
             run_conv(&mut out, case);
